@@ -1712,6 +1712,25 @@ func main() {
 		res.Count("src:odd")
 		one(genOddDir(r.Fork()), r.Uint64())
 	}
+	// 3b. clean directories in which the versions of one module are NOT adjacent in directory (byte)
+	// order: sibling modules P/v2, P/v1x, ... sort between the versions of P (interleave.go).  The
+	// generator draws from its own stream, so the directories above are what they were before.
+	nInter := 8
+	if f.Tier == "thorough" {
+		nInter = 300
+	}
+	ri := common.NewRNG(f.Seed ^ 0x1e7e4c20)
+	for i := 0; i < nInter; i++ {
+		td := genInterleavedDir(ri.Fork())
+		res.Count("src:interleaved")
+		if p, ok := td.interleaved(); ok {
+			res.Count("interleaved:versions-of-one-module-not-adjacent-in-directory-order")
+			if strings.ContainsAny(p, "ABCDEFGHIJKLMNOPQRSTUVWXYZ") {
+				res.Count("interleaved:upper-case-escapes-in-the-path")
+			}
+		}
+		one(td, ri.Uint64())
+	}
 	// 5a/5b run next to the directory queue (they compete for the CPU, which only widens the
 	// windows); their failures are reported afterwards, in a fixed order
 	var bigReport, manyReport func()
